@@ -14,7 +14,7 @@ def _event(args):
     rng = random.Random((seed * 15485863 + idx) & 0xFFFFFFFF)
     w = gen.gen_world(rng, nmin=6, nmax=24, distinct=5)
     text = rows.gen_text_formula(rng, groups=True, rich=True)
-    ns = {"KL": sorted(set(w.cols["k"]["v"]), reverse=rng.random() < 0.5)}
+    ns = rows.namespace(w, rng)
     st, dm = design.build(text, w.df, extra_namespace=ns)
     info = {"formula": text, "n": w.n}
     if st != "ok":
